@@ -9,8 +9,9 @@
    header non-empty, body length = landmark + slice length), every slice is non-empty, its
    header context is the one the writer computes from its records, and every record has
    start <= end <= usize::MAX.  No sortedness is needed by any theorem below. *)
-From Coq Require Import List NArith.
-From NV Require Import CramIdx.Crai CramIdx.CraiProofs.
+From Coq Require Import List NArith ZArith.
+From NV Require Import CramIdx.Crai CramIdx.CraiProofs CramIdx.Multi CramIdx.MultiProofs CramIdx.Transport CramIdx.TransportProofs CramIdx.Bytes CramIdx.BytesProofs.
+From NV Require Import Trunc.Stream Trunc.Cram.
 Import ListNotations.
 Open Scope N_scope.
 
@@ -104,6 +105,196 @@ Theorem c19_scan_no_duplicates :
 Proof. exact scan_sublist_NoDup. Qed.
 Print Assumptions c19_scan_no_duplicates.
 
+(* ---- containers with several slices (NV.CramIdx.Multi) ------------------------------------ *)
+
+(* [mfile_ok pos f]: containers back to back from [pos]; inside a container the stored landmark
+   of every slice but the first is the previous landmark plus the previous slice's true size and
+   the last slice ends the body ([sl_ok]); every slice is non-empty, carries the context the
+   writer computes and records with start <= end <= usize::MAX.
+   The index lists every slice of every container, with the slice's own landmark and size. *)
+Theorem c19_multislice_index_lists_every_slice :
+  forall pos f, mfile_ok pos f -> index_m pos f = Ok (flat_map mspec_entries f).
+Proof. intros pos f H. exact (index_m_spec f pos H). Qed.
+Print Assumptions c19_multislice_index_lists_every_slice.
+
+(* every entry belongs to one slice: it is one of the per-slice entries computed from that
+   slice's records alone, carries the container's offset, the slice's stored landmark -- which
+   is the first landmark plus the sizes of the slices before it -- and the slice's true size *)
+Theorem c19_multislice_entry_layout :
+  forall c e, sl_ok (m_len c) (m_slices c) -> In e (mspec_entries c) ->
+    exists pre s post, m_slices c = pre ++ s :: post /\
+      In e (multi_entries (m_off c) (s_landmark s) (s_len s) (s_recs s)) /\
+      e_off e = m_off c /\ e_landmark e = s_landmark s /\ e_slen e = s_len s /\
+      s_landmark s = first_landmark c + sum_len pre.
+Proof. exact mspec_entry_layout. Qed.
+Print Assumptions c19_multislice_entry_layout.
+
+(* the slices fill the body: length = first landmark (the compression header block) + sizes *)
+Theorem c19_multislice_body_length :
+  forall c, m_slices c <> [] -> sl_ok (m_len c) (m_slices c) ->
+    m_len c = first_landmark c + sum_len (m_slices c).
+Proof.
+  intros c Hne Hl. apply (sl_ok_total (m_slices c) (m_len c) (first_landmark c) Hne Hl).
+  unfold first_landmark. destruct (m_slices c); [exact I|reflexivity].
+Qed.
+Print Assumptions c19_multislice_body_length.
+
+(* the one-slice-per-container files of the theorems above are the one-slice instance *)
+Theorem c19_multislice_generalises_single :
+  forall pos f, layout_ok pos f -> index_m pos (map of_container f) = index pos f.
+Proof. intros pos f H. unfold index. exact (index_m_of_container f pos H). Qed.
+Print Assumptions c19_multislice_generalises_single.
+
+(* every record of a slice lies inside the span of the entry the index holds for (that
+   container, that slice, the record's reference) *)
+Theorem c19_multislice_span_covers_records :
+  forall pos f es c s x r,
+    mfile_ok pos f -> index_m pos f = Ok es ->
+    In c f -> In s (m_slices c) -> In x (s_recs s) -> rid x = Some r ->
+    exists e st, In e es /\ e_rid e = Some r /\ e_off e = m_off c /\ e_landmark e = s_landmark s /\
+                 e_slen e = s_len s /\ e_start e = Some st /\ st <= rs x /\ re x <= st + e_span e - 1.
+Proof. exact index_m_span_covers_records. Qed.
+Print Assumptions c19_multislice_span_covers_records.
+
+(* what Reader::query returns on such files, for any record filter: per container, the filtered
+   records of the WHOLE container once per slice that holds a record of the queried reference *)
+Theorem c19_multislice_query_characterised :
+  forall sel pos f es r lo hi, mfile_ok pos f -> index_m pos f = Ok es ->
+    query_m sel es f r lo hi =
+    flat_map (fun c => flat_map (fun s => if existsb (on_ref r) (s_recs s)
+                                          then filter (sel r lo hi) (m_recs c) else []) (m_slices c)) f.
+Proof. exact query_m_characterised. Qed.
+Print Assumptions c19_multislice_query_characterised.
+
+(* hence query = scan exactly when no container has two slices holding the queried reference ... *)
+Theorem c19_multislice_query_equals_scan :
+  forall pos f es r lo hi, mfile_ok pos f -> index_m pos f = Ok es ->
+    (forall c, In c f -> (length (holders r c) <= 1)%nat) ->
+    query_m selected es f r lo hi = scan_m f r lo hi.
+Proof. exact query_m_equals_scan. Qed.
+Print Assumptions c19_multislice_query_equals_scan.
+
+(* ... and records are returned twice otherwise (finding
+   cram-query-multislice-container-records-repeated; not reachable with files noodles writes) *)
+Theorem c19_query_multislice_duplicates :
+  exists pos f es r lo hi, mfile_ok pos f /\ index_m pos f = Ok es /\
+    map rname (query_m selected es f r lo hi) = [0; 1; 0; 1] /\ map rname (scan_m f r lo hi) = [0; 1].
+Proof. exact query_m_duplicates. Qed.
+Print Assumptions c19_query_multislice_duplicates.
+
+(* ---- query_unmapped ------------------------------------------------------------------------ *)
+
+(* query_unmapped through the index returns exactly the unplaced records a scan keeps, in file
+   order, each once -- for every well-formed file (any number of slices per container) that
+   holds an unplaced record and in which, from the first container holding one on, the UNMAPPED
+   flag is set exactly on the unplaced records ([tail_clean]) *)
+Theorem c19_query_unmapped_equals_scan :
+  forall pos f es, mfile_ok pos f -> index_m pos f = Ok es -> tail_clean f ->
+    existsb is_unmapped (flat_map m_recs f) = true ->
+    query_unmapped es f = Ok (scan_unplaced f).
+Proof. exact query_unmapped_equals_scan. Qed.
+Print Assumptions c19_query_unmapped_equals_scan.
+
+(* in a coordinate-sorted file (everything after an unplaced record is unplaced) whose unplaced
+   records carry the flag, [tail_clean] only excludes a placed record with the UNMAPPED flag in
+   the container of the first unplaced record *)
+Theorem c19_tail_clean_of_sorted :
+  forall f,
+    Forall (fun x => is_unmapped x = true -> runm x = true) (flat_map m_recs f) ->
+    (forall pre c post, f = pre ++ c :: post -> existsb is_unmapped (m_recs c) = true ->
+       Forall (fun x => is_unmapped x = true) (flat_map m_recs post)) ->
+    (forall c, In c f -> existsb is_unmapped (m_recs c) = true -> existsb placed_flagged (m_recs c) = false) ->
+    tail_clean f.
+Proof. exact tail_clean_sorted. Qed.
+Print Assumptions c19_tail_clean_of_sorted.
+
+(* the two input classes where the faithful model does NOT give the scan's answer:
+   no unplaced record at all -> Err(UnexpectedEof) instead of the empty answer
+   (finding cram-query-unmapped-no-unplaced-records-errors) *)
+Theorem c19_query_unmapped_none_refuted :
+  forall pos f es, mfile_ok pos f -> index_m pos f = Ok es ->
+    existsb is_unmapped (flat_map m_recs f) = false ->
+    query_unmapped es f = ErrUnexpectedEof /\ scan_unplaced f = [].
+Proof. exact query_unmapped_none_errors. Qed.
+Print Assumptions c19_query_unmapped_none_refuted.
+
+(* a placed record with the UNMAPPED flag in the boundary container is returned, one in an
+   earlier container is not (finding cram-query-unmapped-returns-placed-records-of-boundary-container) *)
+Theorem c19_query_unmapped_boundary_refuted :
+  exists pos f es, mfile_ok pos f /\ index_m pos f = Ok es /\
+    option_map (map rname) (match query_unmapped es f with Ok l => Some l | _ => None end) = Some [1; 2] /\
+    map rname (scan_unplaced f) = [2] /\
+    map rname (filter runm (flat_map m_recs f)) = [0; 1; 2].
+Proof. exact query_unmapped_boundary. Qed.
+Print Assumptions c19_query_unmapped_boundary_refuted.
+
+(* ---- through a .crai file (NV.CramIdx.Transport over C17's NV.Index.TextIndex) ------------ *)
+
+(* [mcont_fits]: reference ids fit an i32 and starts are positions (>= 1) -- what the crai text
+   can carry -- and offsets / lengths are below 2^64.  Every entry of the index of such a file
+   can be written. *)
+Theorem c19_index_entries_fit_crai :
+  forall pos f es, mfile_ok pos f -> Forall mcont_fits f -> index_m pos f = Ok es -> Forall entry_fits es.
+Proof. exact index_entries_fit. Qed.
+Print Assumptions c19_index_entries_fit_crai.
+
+(* the text written by crai::io::Writer is read back by crai::io::Reader as the same index *)
+Theorem c19_crai_text_roundtrip :
+  forall es, Forall entry_fits es -> read_index (crai_text es) = Some es.
+Proof. exact read_index_roundtrip. Qed.
+Print Assumptions c19_crai_text_roundtrip.
+
+(* via-file: the index built by cram::fs::index, written to a .crai and read back, answers
+   every region query and query_unmapped exactly as the index in memory does (and so, by the
+   theorems above, as the scan does) *)
+Theorem c19_via_file_query :
+  forall pos f es nrefs r lo hi,
+    mfile_ok pos f -> Forall mcont_fits f -> index_m pos f = Ok es ->
+    query_via_file nrefs es f r lo hi = Some (query_region_m nrefs es f r lo hi).
+Proof. exact query_via_file_same. Qed.
+Print Assumptions c19_via_file_query.
+
+Theorem c19_via_file_query_unmapped :
+  forall pos f es,
+    mfile_ok pos f -> Forall mcont_fits f -> index_m pos f = Ok es ->
+    query_unmapped_via_file es f = Some (query_unmapped es f).
+Proof. exact query_unmapped_via_file_same. Qed.
+Print Assumptions c19_via_file_query_unmapped.
+
+(* ---- from the bytes of the file (NV.CramIdx.Bytes over C13's NV.Trunc.Cram) ---------------- *)
+
+(* [index_of_bytes crc file recs]: Reader::read_header, then the loop of cram::fs::index over the
+   containers as framed by C13's [cram_parse_container] at absolute positions, the slices cut out
+   of the body by the stored landmarks, every slice header block parsed (block CRC verified), the
+   entries built by [index_m]; [recs] are the records of the slices (used for multi-reference
+   slices only).  For ANY CRC function and ANY byte string: every entry of a successful result
+   points at a container header of the file, carries one of that header's landmarks, spans a
+   range of the body that starts with a slice header block, and -- for a single-reference or
+   unmapped slice -- has the reference, start and span stored in that block. *)
+Theorem c19_bytes_entries_point_at_slice_headers :
+  forall crc file recs es e,
+    index_of_bytes crc file recs = BOk es -> In e es ->
+    exists h body rest src sh rest',
+      cram_parse_container crc (at_ (e_off e) file) = POk (h, body, false) rest /\
+      In (e_landmark e) (ch_landmarks h) /\
+      e_landmark e + e_slen e <= N.of_nat (length body) /\
+      slice_bytes body (e_landmark e) (e_landmark e + e_slen e) = Some src /\
+      r_slice_header crc src = POk sh rest' /\
+      (forall r s e', ctx_of_shdr sh = Single r s e' ->
+         e_rid e = Some r /\ e_start e = Some s /\ e_span e = e' - s + 1) /\
+      (ctx_of_shdr sh = Unmapped -> e_rid e = None /\ e_start e = None /\ e_span e = 0).
+Proof. exact entries_point_at_bytes. Qed.
+Print Assumptions c19_bytes_entries_point_at_slice_headers.
+
+(* the index from the bytes is [index_m] of the layout read from the bytes, to which the
+   theorems of the multi-slice section apply *)
+Theorem c19_bytes_index_is_index_of_layout :
+  forall crc file recs p0 f,
+    mfile_of_bytes crc file recs = BOk (p0, f) ->
+    index_of_bytes crc file recs = match index_m p0 f with Ok es => BOk es | _ => BErr InvalidData end.
+Proof. exact index_of_bytes_is_index_m. Qed.
+Print Assumptions c19_bytes_index_is_index_of_layout.
+
 (* ---- non-vacuity ------------------------------------------------------------------------- *)
 
 (* three containers: a single-reference slice, a multi-reference slice with an unmapped record,
@@ -142,3 +333,72 @@ Example c19_example_f17 :
   map rname (query_old (index_core 300 c19_example_file) c19_example_file 0 1 50) = [0; 1; 2; 3; 4]
   /\ map rname (scan c19_example_file 0 1 50) = [0; 1; 2].
 Proof. vm_compute. split; reflexivity. Qed.
+
+(* two containers: two slices (both on reference 0) + a multi-reference slice; then one slice *)
+Definition c19_example_mfile : list mcont :=
+  [ mkmcont 300 24 900 [wslice 180 320 [mkrec 0 (Some 0) 5 9 false; mkrec 1 (Some 0) 7 30 false];
+                        wslice 500 400 [mkrec 2 (Some 0) 40 44 false; mkrec 3 (Some 1) 3 12 false]];
+    mkmcont 1224 18 400 [wslice 170 230 [mkrec 4 (Some 1) 20 21 true; mkrec 5 None 0 0 true]] ].
+
+Example c19_example_mfile_ok : mfile_ok 300 c19_example_mfile.
+Proof.
+  split.
+  - cbn. repeat split; reflexivity.
+  - repeat constructor; cbn; try discriminate; unfold usize_max; try reflexivity; intros H; discriminate H.
+Qed.
+
+Example c19_example_mindex :
+  index_m 300 c19_example_mfile =
+  Ok [ mkentry (Some 0) (Some 5) 26 300 180 320;
+       mkentry (Some 0) (Some 40) 5 300 500 400;
+       mkentry (Some 1) (Some 3) 10 300 500 400;
+       mkentry None None 0 1224 170 230;
+       mkentry (Some 1) (Some 20) 2 1224 170 230 ].
+Proof. vm_compute. reflexivity. Qed.
+
+Example c19_example_mquery :
+  map rname (query_m selected (flat_map mspec_entries c19_example_mfile) c19_example_mfile 1 1 50) = [3; 4] /\
+  map rname (query_m selected (flat_map mspec_entries c19_example_mfile) c19_example_mfile 0 1 50) = [0; 1; 2; 0; 1; 2].
+Proof. vm_compute. split; reflexivity. Qed.
+
+Example c19_example_mfile_fits : Forall mcont_fits c19_example_mfile.
+Proof. repeat constructor; cbn; unfold u64_lim; try reflexivity; intros H; discriminate H. Qed.
+
+Example c19_example_via_file :
+  query_via_file 2 (flat_map mspec_entries c19_example_mfile) c19_example_mfile 1 (Some 1) None
+  = Some (Ok [mkrec 3 (Some 1) 3 12 false; mkrec 4 (Some 1) 20 21 true]).
+Proof. vm_compute. reflexivity. Qed.
+
+(* a file written by noodles (one reference, one 1M record): 909 bytes *)
+Definition c19_example_bytes : list N :=
+  [67; 82; 65; 77; 3; 0; 0; 0; 0; 0; 0; 0; 0; 0; 0; 0; 0; 0; 0; 0; 0; 0; 0; 0; 0; 0; 109; 0; 0; 0; 255; 255; 255; 255; 15; 0; 0; 0; 0; 0; 1; 0; 246; 158; 161; 152; 1; 0; 0; 100; 82; 31; 139; 8; 0; 0; 0; 0; 0; 0; 255; 243; 99; 96; 96; 112; 240; 112; 225; 12; 243; 179; 50; 212; 51; 227; 12; 246; 183; 74; 206; 207; 47; 74; 201; 204; 75; 44; 73; 229; 114; 8; 14; 228; 12; 246; 179; 42; 46; 52; 224; 244; 241; 179; 50; 55; 230; 244; 53; 181; 50; 49; 54; 77; 75; 178; 72; 52; 74; 74; 78; 76; 49; 78; 78; 78; 179; 180; 52; 54; 53; 176; 0; 137; 166; 90; 38; 154; 153; 153; 112; 1; 0; 130; 109; 225; 250; 82; 0; 0; 0; 108; 139; 31; 143; 186; 2; 0; 0; 0; 20; 1; 1; 0; 1; 17; 1; 128; 187; 36; 36; 179; 99; 0; 1; 0; 128; 176; 128; 176; 21; 5; 82; 78; 1; 65; 80; 1; 82; 82; 1; 83; 77; 27; 27; 27; 27; 27; 84; 68; 1; 0; 128; 150; 28; 66; 70; 1; 1; 1; 67; 70; 1; 1; 2; 82; 73; 1; 1; 3; 82; 76; 1; 1; 4; 65; 80; 1; 1; 5; 82; 71; 1; 1; 6; 82; 78; 5; 2; 0; 7; 77; 70; 1; 1; 8; 78; 83; 1; 1; 9; 78; 80; 1; 1; 10; 84; 83; 1; 1; 11; 78; 70; 1; 1; 12; 84; 76; 1; 1; 13; 70; 78; 1; 1; 14; 70; 67; 1; 1; 15; 70; 80; 1; 1; 16; 68; 76; 1; 1; 17; 66; 66; 5; 2; 0; 18; 81; 81; 4; 6; 1; 1; 19; 1; 1; 19; 66; 83; 1; 1; 20; 73; 78; 5; 2; 0; 21; 82; 83; 1; 1; 22; 80; 68; 1; 1; 23; 72; 67; 1; 1; 24; 83; 67; 5; 2; 0; 25; 77; 81; 1; 1; 26; 66; 65; 1; 1; 27; 81; 83; 1; 1; 28; 1; 0; 66; 16; 6; 47; 0; 2; 0; 43; 43; 0; 20; 1; 1; 0; 15; 15; 0; 26; 4; 11; 7; 5; 10; 14; 8; 28; 2; 9; 13; 6; 1; 255; 255; 255; 255; 15; 185; 236; 225; 140; 149; 10; 251; 250; 107; 15; 219; 250; 79; 247; 49; 211; 129; 88; 41; 176; 1; 5; 0; 20; 0; 31; 139; 8; 0; 0; 0; 0; 0; 0; 255; 3; 0; 0; 0; 0; 0; 0; 0; 0; 0; 101; 162; 211; 27; 1; 4; 26; 21; 1; 31; 139; 8; 0; 0; 0; 0; 0; 0; 255; 99; 5; 0; 2; 27; 104; 162; 1; 0; 0; 0; 255; 140; 177; 117; 1; 4; 4; 21; 1; 31; 139; 8; 0; 0; 0; 0; 0; 0; 255; 99; 4; 0; 27; 223; 5; 165; 1; 0; 0; 0; 30; 167; 196; 218; 1; 4; 11; 21; 1; 31; 139; 8; 0; 0; 0; 0; 0; 0; 255; 99; 0; 0; 141; 239; 2; 210; 1; 0; 0; 0; 238; 24; 65; 39; 1; 4; 7; 23; 3; 31; 139; 8; 0; 0; 0; 0; 0; 0; 255; 43; 50; 96; 0; 0; 223; 83; 114; 119; 3; 0; 0; 0; 129; 252; 28; 122; 1; 4; 5; 21; 1; 31; 139; 8; 0; 0; 0; 0; 0; 0; 255; 99; 0; 0; 141; 239; 2; 210; 1; 0; 0; 0; 0; 118; 113; 69; 1; 4; 10; 21; 1; 31; 139; 8; 0; 0; 0; 0; 0; 0; 255; 99; 0; 0; 141; 239; 2; 210; 1; 0; 0; 0; 201; 125; 100; 166; 1; 4; 14; 21; 1; 31; 139; 8; 0; 0; 0; 0; 0; 0; 255; 99; 0; 0; 141; 239; 2; 210; 1; 0; 0; 0; 150; 227; 98; 207; 1; 4; 8; 21; 1; 31; 139; 8; 0; 0; 0; 0; 0; 0; 255; 99; 0; 0; 141; 239; 2; 210; 1; 0; 0; 0; 198; 177; 95; 127; 1; 4; 28; 21; 1; 31; 139; 8; 0; 0; 0; 0; 0; 0; 255; 147; 3; 0; 238; 210; 13; 40; 1; 0; 0; 0; 40; 21; 196; 111; 1; 4; 2; 21; 1; 31; 139; 8; 0; 0; 0; 0; 0; 0; 255; 99; 6; 0; 55; 190; 11; 75; 1; 0; 0; 0; 245; 13; 250; 64; 1; 4; 9; 25; 5; 31; 139; 8; 0; 0; 0; 0; 0; 0; 255; 251; 255; 255; 255; 127; 126; 0; 110; 226; 64; 111; 5; 0; 0; 0; 34; 59; 125; 125; 1; 4; 13; 21; 1; 31; 139; 8; 0; 0; 0; 0; 0; 0; 255; 99; 0; 0; 141; 239; 2; 210; 1; 0; 0; 0; 190; 74; 124; 151; 1; 4; 6; 25; 5; 31; 139; 8; 0; 0; 0; 0; 0; 0; 255; 251; 255; 255; 255; 127; 126; 0; 110; 226; 64; 111; 5; 0; 0; 0; 153; 32; 219; 116; 1; 4; 1; 21; 1; 31; 139; 8; 0; 0; 0; 0; 0; 0; 255; 19; 0; 0; 233; 255; 181; 207; 1; 0; 0; 0; 221; 248; 149; 126; 15; 0; 0; 0; 255; 255; 255; 255; 15; 224; 69; 79; 70; 0; 0; 0; 0; 1; 0; 5; 189; 217; 79; 0; 1; 0; 6; 6; 1; 0; 1; 0; 1; 0; 238; 99; 1; 75].
+
+Definition c19_example_bytes_recs : list (list rec) :=
+  [[mkrec 0 (Some 0) 20 20 false]].
+
+Example c19_example_index_of_bytes :
+  index_of_bytes32 c19_example_bytes c19_example_bytes_recs = BOk [mkentry (Some 0) (Some 20) 1 155 187 511].
+Proof. vm_compute. reflexivity. Qed.
+
+(* the hypotheses of c19_query_unmapped_equals_scan are satisfiable: a sorted file whose last
+   container holds the unplaced records *)
+Definition c19_example_ufile : list mcont :=
+  [ mkmcont 300 24 900 [wslice 180 320 [mkrec 0 (Some 0) 5 9 false; mkrec 1 (Some 0) 7 7 true];
+                        wslice 500 400 [mkrec 2 (Some 0) 40 44 false]];
+    mkmcont 1224 18 400 [wslice 170 230 [mkrec 3 None 0 0 true; mkrec 4 None 0 0 true]] ].
+
+Example c19_example_ufile_ok :
+  mfile_ok 300 c19_example_ufile /\ tail_clean c19_example_ufile /\
+  existsb is_unmapped (flat_map m_recs c19_example_ufile) = true.
+Proof.
+  split; [split|split].
+  - cbn. repeat split; reflexivity.
+  - repeat constructor; cbn; try discriminate; unfold usize_max; try reflexivity; intros H; discriminate H.
+  - cbn. repeat constructor.
+  - reflexivity.
+Qed.
+
+Example c19_example_query_unmapped :
+  query_unmapped (flat_map mspec_entries c19_example_ufile) c19_example_ufile
+  = Ok [mkrec 3 None 0 0 true; mkrec 4 None 0 0 true].
+Proof. vm_compute. reflexivity. Qed.
